@@ -131,6 +131,11 @@ def run(rep, tier):
     # that is then refused skews all rankings until the next reload recomputes it.
     dte = [e for e in ins.calls_named(r"dashmap::DashMap::<K, V, S>::entry$") if "doc_tokens" in ix.recv_fields(ins, e)]
     vac = [m["Vacant"] for (sb, adt, m) in (ins.outcome_edges(dte[0].dest.l) if dte else []) if adt.endswith("mapref::entry::Entry") and "Vacant" in m]
+    # ... or on the not-live edge of a `doc_tokens.contains_key(&id)` test (the sweep of leftovers of a dead id)
+    for ck in [e for e in ins.calls_named(r"dashmap::DashMap::<K, V, S>::contains_key$") if "doc_tokens" in ix.recv_fields(ins, e)]:
+        ft, tt = _bool_switch(ins, ck)
+        if ft is not None:
+            vac.append(ft)
     from .anda import ATOMIC_WRITE_RX
     writes = [e for e in ins.calls_named(ATOMIC_WRITE_RX.pattern)] + [e for (e, fld) in ix.state_mutations(ins, ["postings", "buckets"])]
     early = [e for e in writes if not any(ins.dominates(v, e.block) for v in vac)]
@@ -138,6 +143,21 @@ def run(rep, tier):
            "BM25Index::insert changes index state (%s) on a path that has not yet established that the id is new; an insert refused with "
            "AlreadyExists would leave that change behind" % (sorted(ix.recv_fields(ins, early[0])) if early else ""),
            early[0].where() if early else ins.file + ":%d" % ins.line)
+
+    # ------------------------------------------------------------------ R11.6 an id that becomes live again carries no old entries
+    rep.rule("R11.6", "remove() finds a document's entries through the tokens of the text it is given; entries under other tokens (non-original text) can "
+                      "only be found by a pass over every posting list, so insert or remove must be able to reach one before the id is live again", floor=1)
+    sweepers = set()
+    for g in prog.fns.values():
+        if g.crate != "anda_db_tfs":
+            continue
+        if any("postings" in ix.recv_fields(g, e) for e in g.calls_named(r"dashmap::DashMap::<K, V, S>::(iter_mut|retain|alter_all)$")):
+            sweepers.add(g.id)
+    reach = prog.reach_set([ins.id, prog.fn(BM + "::remove").id])
+    rep.ob("R11.6", "reinsert-reaches-full-sweep|insert+remove", bool(sweepers & reach),
+           "neither BM25Index::insert nor BM25Index::remove can reach a traversal of all posting lists: after remove(id, non-original text) the entries "
+           "filed under the other tokens survive, and a later insert(id, ..) makes the document answer term queries for words it does not contain",
+           ins.file + ":%d" % ins.line)
 
     rep.rule("R11.3", "ranking is a total order: all sorts/selects over scored docs use compare_scored_docs (total_cmp + id); truncate after select_nth, then sort", floor=5)
     cmpf = prog.fn(BM + "::compare_scored_docs")
